@@ -622,7 +622,7 @@ func (w *World) forgedRoot(d int) bool {
 		known[fl.End] = true
 	}
 	for _, r := range AllRoots(w.Disks[d].Image()) {
-		if !known[r.End] {
+		if !known[r.End] && !writtenAsOneRecord(w.Disks[d], r) {
 			w.Aborted = true
 			w.probe("run-aborted-self-consistent-forged-root-by-coincidence")
 			return true
